@@ -321,6 +321,7 @@ class Interp:
             dn = self._decorator_name(d, fr)
             if dn in ("attrs.define", "attr.s", "attrs.frozen", "attr.define", "attr.attrs", "attrs.mutable"):
                 cv.is_attrs = True
+                cv.attrs_define = dn.endswith("define") or dn.endswith("mutable")
                 cv.attrs_kwargs = {}
                 if isinstance(d, ast.Call):
                     for kw in d.keywords:
@@ -1350,6 +1351,22 @@ class Interp:
                 return v
             if name == "__name__":
                 return base.name
+            if name == "__attrs_attrs__" and any(isinstance(c, ClassVal) and c.is_attrs for c in base.mro()):
+                out = []
+                for c in reversed(base.mro()):
+                    for f in getattr(c, "attrs_fields", []):
+                        a = Obj(ClassVal(None, None, "attrs.Attribute", [], self))
+                        a.attrs["name"] = f[0]
+                        out.append(a)
+                return tuple(out)
+            if name == "__init__" and any(isinstance(c, ClassVal) and c.is_attrs for c in base.mro()):
+                interp = self
+
+                def attrs_generated_init(obj, *a, **k):
+                    interp.attrs_init(obj, base, list(a), dict(k))
+
+                attrs_generated_init.__pyvc_lib__ = True
+                return attrs_generated_init
             raise PyExc("AttributeError", ("type object %r has no attribute %r" % (base.name, name),))
         if isinstance(base, ModuleRef):
             return self.lookup_global(base.module, name)
@@ -1406,6 +1423,25 @@ class Interp:
             if s is not None:
                 self.call(s, [base, v], {})
                 return
+            if getattr(base.cls, "is_attrs", False) and getattr(base.cls, "attrs_define", False):
+                # attrs.define classes run converters and validators on attribute assignment
+                for c in base.cls.mro():
+                    if not isinstance(c, ClassVal):
+                        continue
+                    for (fname, default, ann) in getattr(c, "attrs_fields", []):
+                        if fname != name or default is None:
+                            continue
+                        fr = Frame(c.module, {}, [], c.qualname)
+                        if self._is_attrs_field_call(default, fr):
+                            spec = self.eval_field_call(default, fr)
+                            if spec.get("converter") is not None:
+                                v = self.call(spec["converter"], [v], {})
+                            vd = spec.get("validator")
+                            if vd is not None:
+                                attr = Obj(ClassVal(None, None, "attrs.Attribute", [], self))
+                                attr.attrs["name"] = name
+                                for one in (vd if isinstance(vd, (list, tuple)) else [vd]):
+                                    self.call(one, [base, attr, v], {})
             base.attrs[name] = v
             return
         if hasattr(base, "__pyvc_setattr__"):
@@ -1686,6 +1722,8 @@ class Interp:
 
     def iterate(self, v):
         """-> Python list (concrete length) or SymIter."""
+        if hasattr(v, "__pyvc_iter__"):
+            return v.__pyvc_iter__(self)
         if isinstance(v, (list, tuple)):
             return list(v)
         if isinstance(v, (set, frozenset, range, str)):
